@@ -72,6 +72,36 @@ def check_static(chk, lib, limit=None):
                 if f.get("cls") == cls and (pred is None or pred(f)):
                     out.append(f)
             return out
+        esz = type_size(val, lib.eng) or 1
+        # element accessors: which element the returned lvalue / pointer designates
+        for name, want_addr in (("front", A), ("back", A + (N - 1) * esz), ("begin", A), ("end", A + N * esz), ("data", A)):
+            if N == 0 and name in ("front", "back"):
+                continue
+            for f in m(name):
+                errs = []
+                for p in lib.summary(f).live:
+                    got = p.ret.addr if isinstance(p.ret, MemLoc) else p.ret
+                    if not isinstance(got, Lin) or got != want_addr:
+                        errs.append("designates %s, expected %s" % (show(got) if got is not None else None, show(want_addr)))
+                    if wr(p):
+                        errs.append("writes")
+                r.done(f, "static." + name, errs, tag)
+        for f in m("operator[]"):
+            errs = []
+            for p in lib.summary(f).live:
+                got = p.ret.addr if isinstance(p.ret, MemLoc) else p.ret
+                if not isinstance(got, Lin) or got != A + sym("pos") * esz:
+                    errs.append("designates %s, expected begin + pos" % (show(got) if got is not None else None))
+                if not has_assert_conj(p, "<", sym("pos") - N):
+                    errs.append("precondition pos < size() is not asserted (asserts: %s)" % assert_texts(p))
+            r.done(f, "static.operator[]", errs, tag)
+        for name, want in (("size", N), ("max_size", N), ("empty", 1 if N == 0 else 0)):
+            for f in m(name):
+                p = lib.summary(f).live[0]
+                errs = []
+                if not isinstance(p.ret, Lin) or p.ret != Lin.const(want):
+                    errs.append("returns %s, expected %d" % (show(p.ret) if p.ret is not None else None, want))
+                r.done(f, "static." + name, errs, tag)
         for f in m("strlen"):
             s = lib.summary(f)
             errs = []
@@ -102,6 +132,16 @@ def check_static(chk, lib, limit=None):
                 a0, a1 = ev[0][3][0], ev[0][3][1]
                 if not (isinstance(a0, tuple) and a0[0] == "ctor" and a0[2] == (A + N,) and isinstance(a1, tuple) and a1[2] == (A,)):
                     errs.append("find_if range is (%s, %s), expected (rbegin = reverse(begin+%d), rend = reverse(begin))" % (show_atom(a0), show_atom(a1), N))
+            # the predicate given to find_if: "is not NUL"
+            lams = [g for g in lib.eng.fns.values() if g.get("lambda") and g["file"] == f["file"]
+                    and f["line"] <= g["line"] <= (f.get("endline") or f["line"]) and g.get("body") is not None and not g.get("dependent")]
+            if not lams:
+                errs.append("predicate lambda of strlen_r not found")
+            else:
+                lp = lib.summary(lams[0]).live
+                pn = (lams[0].get("params") or [{}])[0].get("name", "value")
+                if len(lp) != 1 or not isinstance(lp[0].ret, Lin) or lp[0].ret != cmp_term("!=", sym(pn), 0):
+                    errs.append("find_if predicate returns %s, expected value != 0" % (show(lp[0].ret) if lp and lp[0].ret is not None else None))
             ret = p.ret
             okr = isinstance(ret, Lin) and ret.k == N and len(ret.terms) == 1 and ret.terms[0][1] == -1
             if not okr:
@@ -254,6 +294,20 @@ def check_dynamic(chk, lib, limit=None):
             if not isinstance(rv, MemLoc) or lin(rv.addr) != B + sym("pos"):
                 errs.append("designates %s" % (show(rv.addr) if isinstance(rv, MemLoc) else show(rv)))
             r.done(f, "data.operator[]", errs, tag)
+        for name, want_addr in (("front", B), ("back", B + LEN - 1)):
+            for f in m(name):
+                errs = []
+                for p in lib.summary(f).live:
+                    rv = p.ret
+                    if not isinstance(rv, MemLoc) or lin(rv.addr) != want_addr:
+                        errs.append("designates %s, expected %s" % (show(rv.addr) if isinstance(rv, MemLoc) else show(rv), show(want_addr)))
+                    # documented precondition: !empty()
+                    if not (has_assert_conj(p, "!=", LEN) or has_assert_conj(p, "<", -LEN) or any("!=" in t or "cmp(<" in t for t in assert_texts(p))):
+                        errs.append("precondition !empty() is not asserted (asserts: %s)" % assert_texts(p))
+                r.done(f, "data." + name, errs, tag)
+        for f in m("empty"):
+            p = lib.summary(f).live[0]
+            r.done(f, "data.empty", ["empty() = %s, expected size() == 0" % show(p.ret) if (not isinstance(p.ret, Lin) or p.ret != cmp_term("==", LEN, 0)) else None], tag)
         for f in m("resize"):
             ps = f.get("params") or []
             cnt = sym("count")
